@@ -140,6 +140,11 @@ impl<P: MNT6Config> MNT6<P> {
     pub fn ate_miller_loop(p: &G1Prepared<P>, q: &G2Prepared<P>) -> Fp6<P::Fp6Config> {
         let l1_coeff = Fp3::new(p.x, P::Fp::zero(), P::Fp::zero()) - &q.x_over_twist;
 
+        // e(P, O) = 1: a prepared point at infinity carries no coefficients.
+        if q.double_coefficients.is_empty() {
+            return <Fp6<P::Fp6Config>>::one();
+        }
+
         let mut f = <Fp6<P::Fp6Config>>::one();
 
         let mut add_idx: usize = 0;
